@@ -13,6 +13,8 @@ PROCS = 1  # a case takes ~1 ms: forking a pool costs more than it saves, and on
 THEOREMS = [
     "C10.seq_one_live",
     "C10.seq_one_live_catch_handler",
+    "C10.seq_one_live_inline",
+    "C10.seq_output_concat_inline",
     "C10.seq_next_after_terminal",
     "C10.seq_output_concat",
     "C10.repeat_n_subscribes_n",
@@ -23,12 +25,14 @@ RULE = ("lists of 0..5 logged cold/hot sources with generated timelines and term
         "ops.catch(handler, possibly raising) / rx.on_error_resume_next (sources or factories) / ops.on_error_resume_next / start_with / for_in "
         "(mapper possibly raising); one re-subscribed source (a different timeline per subscription) under repeat(n) / retry(n), n = 0..4 and "
         "unbounded cut by a subscriber that disposes inside its m-th on_next (what take(m) does) / while_do / do_while (condition true c times, "
-        "then false or raising); optional dispose (also exactly between a source's terminal and the operator's scheduled action); a FRESH "
+        "then false or raising); rx.timer-based sources WITHOUT their own scheduler (they run on the scheduler handed down by subscribe); INLINE "
+        "hand-over: subscription with an ImmediateScheduler over sources that terminate synchronously inside subscribe followed by running "
+        "ones (the operator's action runs re-entrantly); optional dispose (also exactly between a source's terminal and the operator's scheduled action); a FRESH "
         "observable per run (C04 owns re-subscription); the recorded event list (source notifications, the operator's own scheduler hops, "
         "dispose) is replayed through the Lean machine, outputs (timed) and subscribe/unsubscribe effects compared per event in order; "
         "non-trivial = at least two sources were subscribed or a source terminated")
 ASSUMPTIONS = ["single-threaded / virtual-time execution: one run is one list of tagged events",
-               "sources do not notify synchronously inside subscribe",
+               "sources notify synchronously inside subscribe only in the inline hand-over cases",
                "do_while is compared with its two nested scheduler hops collapsed into one (no dispose is placed between them)"]
 TRUSTED_EXTRA = ["the logging sources / tap of harness/props/comb_common.py as measuring instruments"]
 LEVEL_TEXT = ("Lean theorems (induction over arbitrary event lists, no bounds) on the trace machine of concat/catch/on_error_resume_next (+ repeat, retry, while_do, do_while, "
@@ -43,7 +47,10 @@ LEVEL_NOTE = ("Model = RxModel/Comb.lean (uniform event rule, disposable plumbin
 "event list incl. dispose anywhere); 'in the same virtual instant' is not a Lean statement (the machine has no clock) - it is checked by the "
 "correspondence, which compares effect times. seq_output_concat states output = delivered elements with non-decreasing source ids (the grouping into "
 "per-source blocks is that sortedness). do_while is the concat machine with items = source, then while-loop; its two nested zero-delay hops are compared "
-"collapsed into one. Not modelled: sources that notify synchronously inside subscribe; futures as sources. Trusted: logging sources/tap, the event-list replay.")
+"collapsed into one. The INLINE hand-over (subscription with an ImmediateScheduler, sources terminating inside subscribe) is the machine seqInlineM "
+"(handler followed by the action it armed); for it seq_one_live_inline and seq_output_concat_inline are proved (the sortedness of the source ids and the "
+"count theorems are not re-proved for the inline machine). For sources that notify inside subscribe the position of their own unsubscribe is compared by time only. "
+"Not modelled: futures as sources. Trusted: logging sources/tap, the event-list replay.")
 
 LIST_OPS = ["concat", "ops_concat", "catch", "ops_catch_obs", "oern", "ops_oern", "start_with", "for_in", "catch_handler"]
 LOOP_OPS = ["repeat", "retry", "while_do", "do_while"]
@@ -53,6 +60,8 @@ OPS = LIST_OPS + LOOP_OPS + ["repeat", "retry", "concat", "catch", "oern"]
 def gen_seq_src(rng, sid, kind_hint):
     """a timeline whose terminal is biased towards the kind the operator continues on"""
     p_c, p_e = {"concat": (0.7, 0.15), "catch": (0.25, 0.65), "oern": (0.45, 0.45)}[kind_hint]
+    if kind_hint != "catch" and rng.random() < 0.12:
+        return cc.gen_timer(rng, sid)     # runs on the scheduler handed down by subscribe
     if rng.random() < 0.75:
         return {"mode": "cold", "msgs": cc.gen_timeline(rng, sid, maxn=3, span=20, p_complete=p_c, p_error=p_e)}
     return {"mode": "hot", "msgs": cc.gen_timeline(rng, sid, maxn=3, span=60, base=cc.SUBSCRIBE_AT - 10, p_complete=p_c, p_error=p_e)}
@@ -83,6 +92,14 @@ def cases(rng, tier):
                 k = rng.choice([0, 1, 2, 2, 3, 3, 4, 5])
             base = 1 if op == "start_with" else 0
             c["srcs"] = [gen_seq_src(rng, base + j, kind) for j in range(k)]
+            # inline hand-over: subscribe with an ImmediateScheduler (the operator's hop runs re-entrantly, inside the previous
+            # source's terminal handler) over sources that terminate synchronously inside subscribe, followed by running ones
+            if op in ("concat", "ops_concat", "catch", "ops_catch_obs", "oern", "ops_oern", "start_with", "for_in") and rng.random() < 0.3:
+                c["inline"] = True
+                for j, sp in enumerate(c["srcs"]):
+                    if sp["mode"] == "timer" or rng.random() < 0.5:
+                        p_c, p_e = {"concat": (0.8, 0.1), "catch": (0.2, 0.75), "oern": (0.5, 0.5)}[kind]
+                        c["srcs"][j] = {"mode": "sync", "msgs": cc.gen_timeline(rng, base + j, maxn=2, span=5, p_complete=p_c, p_error=p_e)}
             if op == "start_with":
                 c["args"] = [enc(rng.choice(cc.FALSY)) for _ in range(rng.choice([0, 1, 2, 3]))]
             if op == "for_in":
@@ -115,6 +132,11 @@ def cases(rng, tier):
                     c["dispose"] = None
         if c["cut"] is None and rng.random() < 0.1:
             c["cut"] = rng.choice([1, 2, 3])
+        # oracle-only: a second subscriber on the same observable instance must see what a fresh instance gives it
+        if op in ("concat", "ops_concat", "catch", "ops_catch_obs", "oern", "ops_oern", "catch_handler") and not c.get("inline") and rng.random() < 0.12:
+            c["second"] = cc.gen_second(rng)
+            c["dispose"] = None
+            c["cut"] = None
         # aim a dispose exactly between the first source's terminal and the operator's scheduled action
         if op in ("concat", "catch", "oern", "ops_oern", "ops_concat", "repeat", "retry") and c["dispose"] is not None and rng.random() < 0.5:
             first = c["srcs"][0] if "srcs" in c and c["srcs"] else c.get("src")
@@ -123,7 +145,7 @@ def cases(rng, tier):
         yield c
 
 
-def _run_impl(case):
+def world_and_build(case):
     import reactivex as rx
     from reactivex import operators as ops
 
@@ -199,7 +221,17 @@ def _run_impl(case):
             return src.pipe(ops.do_while(cond))
         raise ValueError(op)
 
-    log = cc.run_world(w, build, case.get("dispose"), case.get("cut"))
+    return w, build
+
+
+def _run_impl(case):
+    op = case["op"]
+    w, build = world_and_build(case)
+    log = cc.run_world(w, build, case.get("dispose"), None if case.get("inline") else case.get("cut"), inline=bool(case.get("inline")))
+    if case.get("inline"):
+        # inline hand-over: the action armed by a terminal handler runs re-entrantly inside that handler; the model's inline
+        # machine fuses it into the terminal's step, so only the first action (armed by subscribe) stays an event of its own
+        log = [e for i, e in enumerate(log) if not (e[0] == "tick" and i > 0 and log[i - 1][0] == "ev" and log[i - 1][2][0] != "N")]
     if op == "do_while":
         # the nested concat adds a second zero-delay hop: keep the last tick of every run of ticks
         log = [e for i, e in enumerate(log) if not (e[0] == "tick" and i + 1 < len(log) and log[i + 1][0] == "tick")]
@@ -236,13 +268,27 @@ def items_of(case):
 _run = cc.memo(_run_impl)
 
 
+def sync_ids_of(case):
+    """sources that notify inside subscribe: their own unsubscribe happens when that subscribe call returns, i.e. after whatever
+    ran re-entrantly in between; its position is compared by time only (start_with's from_iterable prefix included, when inline)"""
+    base = 1 if case["op"] == "start_with" else 0
+    ids = [base + j for j, sp in enumerate(case.get("srcs", [])) if sp["mode"] == "sync"]
+    if case["op"] == "start_with" and case.get("inline"):
+        ids.append(0)
+    return tuple(ids)
+
+
 def impl(case):
+    if "second" in case:
+        return {"second": cc.run_second_subscriber(lambda: world_and_build(case), case["second"]), "log": [], "split": cc.split_log([])}
     log = _run(case)
-    return {"split": cc.split_log(log), "log": log}
+    return {"split": cc.split_log(log, sync_ids_of(case)), "log": log}
 
 
 def model_request(case):
-    sp = cc.split_log(_run(case))
+    if "second" in case:
+        return None
+    sp = cc.split_log(_run(case), sync_ids_of(case))
     evs = [e for _, e in sp["events"]]
     if case["op"] == "catch_handler":
         r = {"op": "catch_handler", "events": evs}
@@ -250,7 +296,7 @@ def model_request(case):
             r["res"] = "handler"
         return r
     items, rest = items_of(case)
-    return {"op": "seq", "kind": kind_of(case["op"]), "items": items, "rest": rest, "events": evs}
+    return {"op": "seq", "kind": kind_of(case["op"]), "items": items, "rest": rest, "events": evs, "inline": bool(case.get("inline"))}
 
 
 def canon_impl(case, out):
@@ -258,8 +304,8 @@ def canon_impl(case, out):
 
 
 def canon_model(case, resp):
-    sp = cc.split_log(_run(case))
-    return cc.canon_model_resp(sp["events"], resp)
+    sp = cc.split_log(_run(case), sync_ids_of(case))
+    return cc.canon_model_resp(sp["events"], resp, sync_ids_of(case))
 
 
 # --------------------------------------------------------------------------------------------- oracle (property text, from the log)
@@ -268,6 +314,12 @@ def continues(kind, nt):
 
 
 def oracle(case, out):
+    if "second" in out:
+        r = out["second"]
+        if r["outB"] != r["fresh"]:
+            return (f"a second subscriber (at {case['second']['sub2']}, first one disposed at {case['second']['dispose1']}) of the same "
+                    f"observable got {r['outB']}, a subscriber of a fresh instance gets {r['fresh']}: not the concatenation of ITS sources' elements")
+        return None
     log = out["log"]
     op = case["op"]
     kind = kind_of(op)
@@ -276,6 +328,7 @@ def oracle(case, out):
         return f"output is not next* terminal?: {got}"
     # one source at a time, in order; the next one only after (and at the instant of) the continuing terminal of the previous one
     open_subs, subs, last_term = [], [], {}
+    ended = False
     for e in log:
         if e[0] == "sub":
             if open_subs:
@@ -298,8 +351,15 @@ def oracle(case, out):
         elif e[0] == "unsub":
             if e[1] in open_subs:
                 open_subs.remove(e[1])
+                # a consumed source stays subscribed until it terminates (or everything ends): otherwise its remaining
+                # elements are missing from the concatenation
+                if not ended:
+                    return f"source {e[1]} was unsubscribed at {e[2]} although it had not terminated and nothing ended the sequence"
+        elif e[0] in ("dispose",) or (e[0] == "out" and e[1][0] != "N"):
+            ended = True
         elif e[0] == "ev" and e[2][0] != "N" and e[1] in open_subs and e[1] not in last_term:
             last_term[e[1]] = (e[2], e[3])
+            open_subs.remove(e[1])      # terminated: closed as far as the property is concerned (its unsubscribe may lag inside subscribe)
     # expected output: concatenation of the accepted elements + the operator's final terminal
     acc = cc.accepted(log)
     disposed_pos = next((p for p, e in enumerate(log) if e[0] == "dispose"), None)
@@ -338,7 +398,7 @@ def oracle(case, out):
             continue
         # the final terminal is produced by the scheduled action: not if the dispose comes first
         nxt = [e for e in log[p + 1:] if e[0] in ("dispose", "tick")]
-        if nxt and nxt[0][0] == "dispose":
+        if nxt and nxt[0][0] == "dispose" and not case.get("inline"):   # inline: the action runs inside the terminal handler
             break
         if nx == "stop":
             expect.append([t, last_err if (kind == "catch" and last_err) else ["C"]])
@@ -347,6 +407,9 @@ def oracle(case, out):
         fin = True
     if got != expect:
         return f"{op}: got {got}, expected concatenation {expect}"
+    v = cc.timer_delivery_failure(case.get("srcs", []), log)
+    if v:
+        return v
     # subscription counts
     if op == "repeat" and case["count"] is not None:
         if len(subs) > case["count"]:
@@ -363,11 +426,16 @@ def oracle(case, out):
 
 
 def nontrivial(case, out):
+    if "second" in out:
+        return len(out["second"]["fresh"]) > 0
     log = out["log"]
     return len([1 for e in log if e[0] == "sub"]) >= 2 or any(e[0] == "ev" and e[2][0] != "N" for e in log)
 
 
 def bucket(case, out):
+    if "second" in out:
+        yield "second_subscriber"
+        return
     log = out["log"]
     got = cc.outputs(out["split"])
     yield f"op={case['op']}"
@@ -375,6 +443,13 @@ def bucket(case, out):
     yield f"subs={min(5, len([1 for e in log if e[0] == 'sub']))}"
     yield "dispose=" + str(any(e[0] == "dispose" for e in log))
     yield "cut=" + str(case.get("cut") is not None)
+    if case.get("inline"):
+        yield "inline"
+        modes = [sp["mode"] for sp in case["srcs"]]
+        if any(a == "sync" and b != "sync" for a, b in zip(modes, modes[1:])) or (case["op"] == "start_with" and modes and modes[0] != "sync"):
+            yield "inline_sync_then_running"
+    for sp in case.get("srcs", []):
+        yield "src=" + sp["mode"]
     if "count" in case:
         yield f"count={case['count']}"
     # dispose exactly between a source's continuing terminal and the scheduled action it armed
@@ -387,7 +462,7 @@ def bucket(case, out):
 def shrink(case):
     if "srcs" in case:
         for i, s in enumerate(case["srcs"]):
-            for j in range(len(s["msgs"])):
+            for j in range(len(s.get("msgs", []))):
                 c = copy.deepcopy(case)
                 del c["srcs"][i]["msgs"][j]
                 yield c
